@@ -692,6 +692,135 @@ class RtlSuffixCase(_RtlSearchReplay, Case):
     return cl
 
 
+_RTL_CALL_SEARCH = """
+import itertools
+import numpy as np
+cfg = args[0]
+rl = mod('rtl_layer')
+found = []
+for seed in (1, 2, 3):
+  layer = rl.RTL(num_lattices=cfg['num_lattices'], lattice_rank=cfg['rank'], random_seed=seed)
+  xs = {}
+  if cfg['n_unc']:
+    xs['unconstrained'] = tf.constant(np.full((1, cfg['n_unc']), 0.5, dtype='float32'))
+  if cfg['n_inc']:
+    xs['increasing'] = tf.constant(np.full((1, cfg['n_inc']), 0.5, dtype='float32'))
+  layer(xs)
+  # kernels: +1 slope along monotone dimensions, -1 along the others
+  for sub in layer._lattice_layers.values():
+    monos = [1 if m in (1, 'increasing') else 0 for m in sub.monotonicities]
+    verts = list(itertools.product([0, 1], repeat=len(monos)))
+    col = np.array([sum((1.0 if m else -1.0) * v for m, v in zip(monos, vert)) for vert in verts], dtype='float32')
+    sub.kernel.assign(np.tile(col[:, None], [1, sub.units]))
+  base = np.asarray(layer(xs)).ravel()
+  for j in range(cfg['n_inc']):
+    x2 = dict(xs)
+    a = np.full((1, cfg['n_inc']), 0.5, dtype='float32'); a[0, j] = 1.0
+    x2['increasing'] = tf.constant(a)
+    out = np.asarray(layer(x2)).ravel()
+    if (out < base - 1e-6).any():
+      found.append('seed %d: raising increasing column %d lowers lattice outputs %s -> %s' % (seed, j, base.tolist(), out.tolist()))
+      break
+result = found
+"""
+
+
+class RtlCallWiringCase(Case):
+  """RTL.call against the structure its build() recorded: the real call runs on symbolic input columns with the
+  sub-lattice layers replaced by recorders (their interpolation is C02's / C07's business).  Every column supplied
+  under 'increasing' must arrive at lattice dimensions constrained monotone - and only those -, every column must
+  arrive somewhere, and with separate_outputs the 'increasing' output collects exactly the lattices with a monotone
+  input.  The flattening order of call() is thereby tied to the numbering of _get_rtl_structure."""
+  contract_key = None
+  xcheck = False
+
+  def replay_desc(self, cfg, model, g):
+    return {'kind': 'script', 'code': _RTL_CALL_SEARCH, 'floatx': 'float32',
+            'args': [{k: cfg[k] for k in ('n_inc', 'n_unc', 'num_lattices', 'rank')}], 'kwargs': {}}
+
+  def replay_eval(self, cfg, model, g, desc, nat):
+    failing = ['native probe raised ' + nat['error'][:200]] if 'error' in nat else list(nat.get('ok') or [])
+    return {'desc': {'kind': 'real RTL layer, kernels with slope +1 on monotone and -1 on other dimensions, one increasing '
+                             'column raised at a time', 'cfg': desc['args'][0]},
+            'native': {k: v for k, v in nat.items() if k != 'trace'}, 'failing': failing}
+
+  def body(self, cfg, c):
+    from vt import kerasc
+    rl = load.mod('rtl_layer')
+    n_inc, n_unc = cfg['n_inc'], cfg['n_unc']
+    kerasc.WEIGHT_PROVIDER[0] = lambda layer, name, shape, dt, init, cons: tfc.sym(shape, E.fresh_name('K'))
+    try:
+      layer = rl.RTL(num_lattices=cfg['num_lattices'], lattice_rank=cfg['rank'], separate_outputs=cfg.get('separate', False),
+                     random_seed=cfg.get('seed', 1), parameterization=cfg.get('param', 'all_vertices'))
+      xs, shapes = {}, {}
+      as_list = cfg.get('as_list', False)
+      if n_unc:
+        t = tfc.sym([1, n_unc], 'xu')
+        xs['unconstrained'] = [t[:, i:i + 1] for i in range(n_unc)] if as_list else t
+        shapes['unconstrained'] = [tfc.TensorShape([None, 1])] * n_unc if as_list else tfc.TensorShape([None, n_unc])
+        unc_keys = {P.lift(t.a[0, i]).key(): i for i in range(n_unc)}
+      else:
+        unc_keys = {}
+      if n_inc:
+        t = tfc.sym([1, n_inc], 'xi')
+        xs['increasing'] = [t[:, i:i + 1] for i in range(n_inc)] if as_list else t
+        shapes['increasing'] = [tfc.TensorShape([None, 1])] * n_inc if as_list else tfc.TensorShape([None, n_inc])
+        inc_keys = {P.lift(t.a[0, i]).key(): i for i in range(n_inc)}
+      else:
+        inc_keys = {}
+      if cfg.get('reverse_dict'):
+        xs = dict(reversed(list(xs.items())))
+        shapes = dict(reversed(list(shapes.items())))
+      layer.build(shapes)
+    finally:
+      kerasc.WEIGHT_PROVIDER[0] = None
+    records = []
+    outs = {}
+    for key, sub in layer._lattice_layers.items():
+      def rec(inputs, _sub=sub, _key=key):
+        t = inputs if not isinstance(inputs, (list, tuple)) else tfc.concat(list(inputs), axis=-1)
+        records.append((_sub, t))
+        o = tfc.sym([1, _sub.units], E.fresh_name('lat_out'))
+        for u in range(_sub.units):
+          outs[P.lift(o.a[0, u]).key()] = _sub
+        return o
+      sub.call = rec
+      sub.built = True
+    out = layer.call(xs)
+    cl = []
+    seen_inc, seen_unc = set(), set()
+    for sub, t in records:
+      monos = list(sub.monotonicities)
+      a = t.a.reshape((-1, len(monos)))
+      for row in a:
+        for k, e in enumerate(row):
+          key = P.lift(e).key()
+          if key in inc_keys:
+            seen_inc.add(inc_keys[key])
+            cl.append(('increasing-input-on-monotone-dimension-only[xi%d]' % inc_keys[key],
+                       B.const(load.mod('utils').canonicalize_monotonicity(monos[k]) == 1)))
+          elif key in unc_keys:
+            seen_unc.add(unc_keys[key])
+            cl.append(('unconstrained-input-on-unconstrained-dimension[xu%d]' % unc_keys[key],
+                       B.const(load.mod('utils').canonicalize_monotonicity(monos[k]) == 0)))
+          else:
+            cl.append(('lattice-input-is-an-input-column', E.FALSE))
+    cl.append(('every-increasing-column-reaches-a-lattice', B.const(seen_inc == set(range(n_inc)))))
+    cl.append(('every-unconstrained-column-reaches-a-lattice', B.const(seen_unc == set(range(n_unc)))))
+    cl.append(('all-lattices-evaluated', B.const(sum(s.units for s, _ in records) == cfg['num_lattices'])))
+    if cfg.get('separate'):
+      for okey, want in (('increasing', True), ('unconstrained', False)):
+        if okey not in out:
+          continue
+        for e in out[okey].a.flat:
+          sub = outs.get(P.lift(e).key())
+          has_mono = sub is not None and any(load.mod('utils').canonicalize_monotonicity(m) == 1 for m in sub.monotonicities)
+          cl.append(('output-labelled-%s-iff-the-lattice-has-a-monotone-input' % okey, B.const(sub is not None and has_mono == want)))
+      n_out = sum(int(np.prod(out[k].a.shape)) for k in out)
+      cl.append(('every-lattice-output-is-returned', B.const(n_out == cfg['num_lattices'])))
+    return cl
+
+
 def _ensemble_config(cfg, lattices):
   cf = load.mod('configs')
   fc = [cf.FeatureConfig(name='f%d' % i) for i in range(cfg['features'])]
@@ -821,7 +950,7 @@ class CrystalsCase(Case):
     return cl
 
 
-CASES = {'rtl_prefix': RtlPrefixCase(), 'rtl_swap_body': RtlSwapBodyCase(), 'rtl_suffix': RtlSuffixCase(),
+CASES = {'rtl_call_wiring': RtlCallWiringCase(), 'rtl_prefix': RtlPrefixCase(), 'rtl_swap_body': RtlSwapBodyCase(), 'rtl_suffix': RtlSuffixCase(),
          'rtl': RtlCase(), 'random_ensemble': RandomEnsembleCase(), 'pairs_cover': PairsCoverCase(),
          'crystals': CrystalsCase()}
 
@@ -851,6 +980,12 @@ def configs(tier, rng):
     for grouped in (False, True):
       for avoid in (True, False):
         jobs.append(('rtl_prefix', dict(inc=inc, unc=unc, num_lattices=nl, rank=rk, grouped=grouped, avoid=avoid)))
+  for (ni, nu, nl, rk) in ((1, 1, 1, 2), (2, 3, 3, 2), (3, 2, 4, 2), (1, 4, 3, 3), (2, 2, 2, 3), (4, 0, 2, 3), (0, 3, 2, 2)):
+    for seed in (1, 2, 3):
+      for separate in (False, True):
+        for as_list in (False, True):
+          jobs.append(('rtl_call_wiring', dict(n_inc=ni, n_unc=nu, num_lattices=nl, rank=rk, seed=seed, separate=separate,
+                                               as_list=as_list, reverse_dict=bool(seed % 2))))
   for rk in ((2, 3) if tier == 'quick' else (2, 3, 4)):
     for lists in (2, 3):
       for it in range(lists * (lists - 1) // 2 * rk * rk + 1):
